@@ -708,6 +708,16 @@ func runC07(e *sim.Env) {
 				jb.before = jb.txn.DeepCopy()
 				jobs = append(jobs, jb)
 			}
+			// one of the callers may be a SplitUTXO (selects, signs and broadcasts in
+			// one call) racing with the funding calls
+			splitN, splitMin := 0, types.ZeroCurrency
+			if e.Chance(1, 2) && !sp.IsZero() {
+				splitN = e.Range(2, 8)
+				splitMin = sp.Div64(uint64(splitN * e.Range(2, 6)))
+			}
+			var splitTxn types.V2Transaction
+			var splitErr error
+			var splitCrash string
 			poolBefore, resBefore := r.poolSpent(), r.reserved()
 			// the store seam sits inside the wallet's critical section: yielding
 			// there lets every other caller run up to the wallet's lock
@@ -729,9 +739,27 @@ func runC07(e *sim.Env) {
 						jb.basis, jb.toSign, jb.err = r.w.FundV2Transaction(&jb.txn, jb.amount, jb.unconfirmed)
 					}()
 				}
+				if splitN > 0 && !splitMin.IsZero() {
+					wg.Add(1)
+					go func() {
+						defer wg.Done()
+						defer func() {
+							if x := recover(); x != nil {
+								splitCrash = fmt.Sprintf("%v\n%s", x, debug.Stack())
+							}
+						}()
+						splitTxn, splitErr = r.w.SplitUTXO(splitN, splitMin)
+					}()
+				}
 				wg.Wait()
 			})
 			r.st.yield = nil
+			if splitCrash != "" {
+				if sim.PanicInSUT(splitCrash) {
+					e.Violationf("C07.panic", "concurrent-split", "SplitUTXO panicked under concurrent use: %.1500s", splitCrash)
+				}
+				panic("C07 concurrent phase: " + splitCrash)
+			}
 			e.Fault("concurrent-funding")
 			e.Nontrivial = true
 			claimed := map[types.SiacoinOutputID]int{}
@@ -772,6 +800,18 @@ func runC07(e *sim.Env) {
 					rv := r.reserve(lbl, ins)
 					outstanding = append(outstanding, &fundedV2{txn: jb.txn, basis: jb.basis, toSign: jb.toSign, rv: rv})
 				}
+			}
+			if splitN > 0 && splitErr == nil && len(splitTxn.SiacoinInputs) > 0 {
+				var ins []types.SiacoinElement
+				for _, in := range splitTxn.SiacoinInputs {
+					ins = append(ins, in.Parent)
+					if other, dup := claimed[in.Parent.ID]; dup {
+						e.Violationf("C07.double-allocation", "concurrent-split-and-fund", "a SplitUTXO running concurrently with FundV2Transaction call #%d spends output %v, which that call was given too", other, in.Parent.ID)
+					}
+				}
+				r.checkSelection(label+" concurrent split", ins, true, poolBefore, resBefore)
+				r.reserve(label+" concurrent split", ins)
+				e.Probe("concurrent_split_succeeded")
 			}
 			e.Shape("concurrent-fund", fmt.Sprint(len(jobs)), fmt.Sprint(ok))
 			if ok >= 2 {
@@ -817,7 +857,7 @@ var _ = chain.ErrMissingBlock
 func init() {
 	register(&Prop{
 		ID: "C07", Run: runC07, Flavour: "instrumented", Quick: 700, Thorough: 20000, Level: "exploration",
-		Rule:        "one run = drawn wallet options (defrag threshold 0-40, max inputs for defrag 0-40, max defrag outputs 0-12, reservation 1s-6h) and a chain that leaves the wallet with mature, immature, pool-spent and unconfirmed outputs; then 10-40 drawn operations: FundV2Transaction (0, 1H, exactly spendable, spendable+1H, drawn; with/without unconfirmed), sign+broadcast / keep outstanding / release, Redistribute, SplitUTXO, blocks confirming the pool, clock jumps around the reservation period, reorgs, restart (new manager with empty pool + new wallet on the same store re-loading broadcast sets), foreign payments into the pool, and 2-4 FundV2Transaction calls issued from concurrent goroutines (amounts that cannot all succeed; a seeded scheduler decides who proceeds at the store seam and, in the instrumented flavour, at every Lock / Unlock), whose results must be pairwise disjoint; after every operation: selection rules (owned, mature, unspent, not pool-spent, not reserved by an outstanding request), value conservation, failed calls change nothing, signed results accepted by the pool, and Balance().Spendable == sum(SpendableOutputs()) == independent model == largest fundable amount; distinct = abstract trace; non-trivial = a clock jump, reorg or restart",
+		Rule:        "one run = drawn wallet options (defrag threshold 0-40, max inputs for defrag 0-40, max defrag outputs 0-12, reservation 1s-6h) and a chain that leaves the wallet with mature, immature, pool-spent and unconfirmed outputs; then 10-40 drawn operations: FundV2Transaction (0, 1H, exactly spendable, spendable+1H, drawn; with/without unconfirmed), sign+broadcast / keep outstanding / release, Redistribute, SplitUTXO, blocks confirming the pool, clock jumps around the reservation period, reorgs, restart (new manager with empty pool + new wallet on the same store re-loading broadcast sets), foreign payments into the pool, and 2-4 FundV2Transaction calls (in half of the cases together with a SplitUTXO) issued from concurrent goroutines (amounts that cannot all succeed; a seeded scheduler decides who proceeds at the store seam and, in the instrumented flavour, at every Lock / Unlock), whose results must be pairwise disjoint; after every operation: selection rules (owned, mature, unspent, not pool-spent, not reserved by an outstanding request), value conservation, failed calls change nothing, signed results accepted by the pool, and Balance().Spendable == sum(SpendableOutputs()) == independent model == largest fundable amount; distinct = abstract trace; non-trivial = a clock jump, reorg or restart",
 		Real:        []string{"wallet.SingleAddressWallet (funding, signing, redistribute, split, release, broadcast, restart)", "chain.Manager", "chain.DBStore"},
 		Stub:        []string{"wallet store: harness walletStore", "syncer: recording stub", "disk: simdisk.DB"},
 		Assumptions: []string{"a funded v2 transaction whose unconfirmed ancestry reaches a pooled v1 transaction (only between the allow and require heights, after a reorg un-confirmed the v1 parent of a pooled v2 transaction) cannot be submitted through the version-separated pool API; such cases are counted (probe funded_on_mixed_version_ancestry), not judged", "concurrent callers are interleaved at the wallet-store seam only (a seeded scheduling point inside the store call the wallet makes while holding its lock); in the lock-yield flavour every Lock / Unlock of the wallet's and the manager's mutexes is one too; other lock-level interleavings are not explored"},
